@@ -25,6 +25,8 @@ pub enum V {
     Int(#[serde(with = "crate::common::i128_str")] i128),
     /// integer supplied through an Int parameter
     ParamInt(#[serde(with = "crate::common::i128_str")] i128),
+    /// `!p` for an Int parameter p with this value
+    NegParamInt(#[serde(with = "crate::common::i128_str")] i128),
     Bytes(Vec<u8>),
     ParamBytes(Vec<u8>),
     Str(String),
@@ -61,7 +63,7 @@ struct Render {
 impl Render {
     fn type_of(&mut self, v: &V) -> String {
         match v {
-            V::Int(_) | V::ParamInt(_) => "Int".into(),
+            V::Int(_) | V::ParamInt(_) | V::NegParamInt(_) => "Int".into(),
             V::Bytes(_) | V::ParamBytes(_) | V::Str(_) | V::PolicyName => "Bytes".into(),
             V::PartyName => "Address".into(),
             V::Bool(_) => "Bool".into(),
@@ -131,6 +133,11 @@ impl Render {
                 self.params.push((name.clone(), "Int", ArgValue::Int(*n)));
                 name
             }
+            V::NegParamInt(n) => {
+                let name = format!("pi{}", self.params.len());
+                self.params.push((name.clone(), "Int", ArgValue::Int(*n)));
+                format!("!{name}")
+            }
             V::Bytes(b) if b.is_empty() => "\"\"".to_string(), // the grammar has no empty hex literal
             V::Bytes(b) => format!("0x{}", hex::encode(b)),
             V::ParamBytes(b) => {
@@ -177,6 +184,7 @@ impl Render {
 pub fn expected(v: &V) -> PData {
     match v {
         V::Int(n) | V::ParamInt(n) => PData::Int(BigInt::from_i128(*n)),
+        V::NegParamInt(n) => PData::Int(BigInt::from_i128(-*n)),
         V::Bytes(b) | V::ParamBytes(b) => PData::Bytes(b.clone()),
         V::Str(s) => PData::Bytes(s.as_bytes().to_vec()),
         V::PolicyName => PData::Bytes(NAMED_POLICY.to_vec()),
@@ -228,7 +236,7 @@ pub fn render(v: &V, pos: Pos, order: usize) -> (String, tx3_tir::reduce::ArgMap
 
 fn shape_kind(v: &V) -> &'static str {
     match v {
-        V::Int(_) | V::ParamInt(_) => "int",
+        V::Int(_) | V::ParamInt(_) | V::NegParamInt(_) => "int",
         V::Bytes(_) | V::ParamBytes(_) => "bytes",
         V::Str(_) => "string",
         V::PolicyName => "policy-name",
@@ -529,6 +537,21 @@ impl Prop for C09 {
                 let fields = vec![V::Int(11), V::Bytes(vec![0xAA, 0xBB]), V::Int(3)];
                 sink.case(|| json!({"kind": "written-order", "pos": pos, "order": order, "value": V::Rec(fields.clone())}));
                 sink.case(|| json!({"kind": "written-order", "pos": pos, "order": order, "value": V::Var { cases: 3, case: 1, fields: fields.clone() }}));
+            }
+        }
+        // values written with an operator or a name, in every position: a negated parameter, a policy name, a party
+        // name - bare in a record, in a variant case, in a list, as map key and value
+        for pos in POSITIONS {
+            for leaf in [V::NegParamInt(5), V::NegParamInt(-7), V::PolicyName, V::PartyName] {
+                let shapes = [
+                    V::Rec(vec![V::Int(1), leaf.clone()]),
+                    V::Var { cases: 3, case: 2, fields: vec![leaf.clone()] },
+                    V::Rec(vec![V::List(vec![leaf.clone(), leaf.clone()])]),
+                    V::Rec(vec![V::Map(vec![(leaf.clone(), leaf.clone())])]),
+                ];
+                for v in shapes {
+                    sink.case(|| json!({"kind": "named-or-computed-leaf", "pos": pos, "value": v}));
+                }
             }
         }
         for n in int_values() {
